@@ -63,8 +63,8 @@ def run(rep):
     mprun.validate_model(progs, recs)
     if tier == 'thorough':
         opts = [dict(o, ops='count', code=True) for o in rp.OPTION_SETS]
-    else:   # quick: run one option set, convert + scan the generated code of two more
-        opts = [dict(rp.OPTION_SETS[0], ops='count', code=True)] + [dict(o, ops='count', code=True, norun=True) for o in rp.OPTION_SETS[1:3]]
+    else:   # quick: run one option set, convert + scan the generated code of one more
+        opts = [dict(rp.OPTION_SETS[0], ops='count', code=True)] + [dict(o, ops='count', code=True, norun=True) for o in rp.OPTION_SETS[2:3]]
     div, nrun, errs = rp.replay_all(progs, recs, opts, name='c04')
     rep.set('programs', len(progs))
     rep.set('executions', len(recs))
